@@ -145,7 +145,7 @@ static const u8 MAGIC[8] = {0xC3, 0xA5, 0xC3, 0xA5, 0xC3, 0xA5, 0xC3, 0xA5};
 void harness(void)
 {
   LOAD_INPUTS();
-  u8 key[16], seed[256];
+  u8 key[16], seed[SEEDLEN + 8];
   memcpy(key, IN.key, 16);
   for (u32 i = 0; i < SEEDLEN; i++) { ASSUME(IN.seed[i] != 0); seed[i] = IN.seed[i]; }     /* r_buf is used up to its first NUL (strlen) */
   seed[SEEDLEN] = 0;
@@ -156,14 +156,34 @@ void harness(void)
 #ifdef PRE_FAIL
   /* C15: a failing operation first (garbage input): must leave no trace in the process */
   {
-    u8 *g = envf_open_in(IN.junk, 80), *go = envf_open_out(16);
+    /* failure class per query (PRE_FAIL = 1 wrong magic, 2 shorter than the smallest valid file, 3 hash-mode byte out of range), the
+       bytes symbolic; the remaining class (wrong tag) and every other rejected input are the reject-gate obligations of C15 */
+#if PRE_FAIL == 2
+#define JUNKLEN 60
+#else
+#define JUNKLEN 80
+#endif
+    u8 junk[80];
+    memcpy(junk, IN.junk, 80);
+#if PRE_FAIL == 1
+    memcpy(junk, MAGIC, 8); junk[3] ^= 0x10; junk[8] = 1; junk[9] = 0;      /* one magic bit wrong (every wrong magic: reject-gate obligations) */
+#else
+    memcpy(junk, MAGIC, 8); junk[8] = 1;
+#if PRE_FAIL == 3
+    junk[9] = 3;
+#else
+    junk[9] = 0;
+#endif
+#endif
+    u8 *g = envf_open_in(junk, JUNKLEN), *go = envf_open_out(16);
     u8 *r0 = vf_rc_new(g, go, key, (u32)-1, (u32)-1, THREADS);
     reset_threads(); op = 2;
 #if MODEL
-    vf_rc_decrypt_init(0, r0, 80);
+    vf_rc_decrypt_init(0, r0, JUNKLEN);
     run_to_completion();
+    CHECK(vf_rc_decrypt_result(0) == 0, "the first operation fails");
 #else
-    vf_rc_decrypt(r0, 80);
+    CHECK(vf_rc_decrypt(r0, JUNKLEN) == 0, "the first operation fails");
 #endif
     CHECK(envf_nwrites(go) == 0, "failed operation wrote nothing");
     CHECK(vf_bg_instance_null() && vf_bg_live() == 0, "failed operation leaves the process-global pipeline state initial");
